@@ -7,6 +7,7 @@ import (
 	"go/format"
 	"go/parser"
 	"go/token"
+	"math/rand"
 	"os"
 	"path/filepath"
 	"strings"
@@ -293,8 +294,89 @@ var c01Known = []string{
 	"package a\n\nfunc f() {\n\ta()\n//line x.go:10\n\tb()\n}\n",
 }
 
+// Layouts of comments that hang at the indent of a continuation line / of a clause body (the
+// hanging-indent handling of link(): findIndentedComments and the start / end indents of every line),
+// generated as a product so that every combination occurs that gofmt accepts as canonical:
+//
+//   - package level: a declaration that ends on a continuation line; comments at the continuation
+//     indent; comments in column one; an empty line or none; the next declaration (const, func,
+//     type, parenthesised var -- the next node is a Decl, not a Stmt)
+//   - case / comm clauses (expression switch, type switch, select; empty body, one / two statements,
+//     a nested block): comments at the body indent; comments at the 'case' indent, directly or after an
+//     empty line; the next clause
+//   - statements in a function body that end on a continuation line (call, assignment, DeclStmt,
+//     return), with the same followers
+//
+// each of them plain and after a line directive at package level (//line and /*line*/ form, with and
+// without column, without file name, attached to the declaration or detached): a directive changes
+// what FileSet.Position reports for everything behind it (without a column: column 0), and must not
+// change how the file is printed. Non-canonical combinations are skipped by the caller.
+func c01HangingLayouts() []string {
+	var out []string
+	directives := []string{"", "//line gen.y:10\n", "//line gen.y:10\n\n", "//line gen.y:10:1\n", "/*line gen.y:10*/\n", "/*line gen.y:10*/\n\n", "//line :7\n\n"}
+	seps := []string{"", "\n"}
+
+	heads := []string{"const a = 1 +\n\t1\n", "var x = p ||\n\tq\n", "var x = f(1,\n\t2)\n", "type T = map[string]func(a,\n\tb int)\n"}
+	hang := []string{"", "\t// remark\n", "\t// remark\n\t// second\n", "\t/* remark */\n"}
+	col1 := []string{"", "// next\n", "// next\n// more\n"}
+	nexts := []string{"const b = 2\n", "func g() {}\n", "type U int\n", "var (\n\ty = 1\n)\n"}
+	for _, d := range directives {
+		for _, h := range heads {
+			for _, hg := range hang {
+				for _, c1 := range col1 {
+					for _, s := range seps {
+						for _, n := range nexts {
+							out = append(out, "package a\n\n"+d+h+hg+c1+s+n)
+						}
+					}
+				}
+			}
+		}
+	}
+
+	clauses := [][3]string{
+		{"\tswitch x {\n", "\tcase 1:\n", "\tcase 2:\n"},
+		{"\tswitch x {\n", "\tcase 1:\n", "\tdefault:\n"},
+		{"\tswitch y := x.(type) {\n", "\tcase int:\n", "\tcase nil:\n"},
+		{"\tselect {\n", "\tcase <-c:\n", "\tcase c <- 1:\n"},
+	}
+	bodies := []string{"", "\t\tg()\n", "\t\tg()\n\t\th()\n", "\t\tif x {\n\t\t\tg()\n\t\t}\n"}
+	bhang := []string{"", "\t\t// remark\n", "\t\t// remark\n\t\t// second\n", "\t\t/* remark */\n"}
+	lead := []string{"", "\t// lead of next\n", "\n\t// lead of next\n"}
+	for _, d := range directives {
+		for _, cl := range clauses {
+			for _, b := range bodies {
+				for _, hg := range bhang {
+					for _, l := range lead {
+						out = append(out, "package a\n\n"+d+"func f() {\n"+cl[0]+cl[1]+b+hg+l+cl[2]+"\t\tg()\n\t}\n}\n")
+					}
+				}
+			}
+		}
+	}
+
+	stmts := []string{"\tfoo(a,\n\t\tb)\n", "\tx := a ||\n\t\tb\n", "\tconst k = 1 +\n\t\t2\n", "\treturn a,\n\t\tb\n"}
+	shang := []string{"", "\t\t// remark\n", "\t\t// remark\n\t\t// second\n"}
+	snext := []string{"", "\t// next\n"}
+	sfollow := []string{"\tbar()\n", "\tvar z int\n", ""}
+	for _, d := range directives {
+		for _, st := range stmts {
+			for _, hg := range shang {
+				for _, n := range snext {
+					for _, s := range seps {
+						for _, fo := range sfollow {
+							out = append(out, "package a\n\n"+d+"func f() {\n"+st+hg+n+s+fo+"}\n")
+						}
+					}
+				}
+			}
+		}
+	}
+	return out
+}
+
 func c01Prop(c *Ctx) {
-	c.Res.Rule = "gofmt-canonical files: hand corpus, /repo's own sources, files sampled from $GOROOT/src (any size up to 60 kB), each through the entry points (string helpers; explicit Decorator/Restorer on caller file sets that already hold files; one FileRestorer reused for two files, printed afterwards; ParseDir); plus the recorded finding inputs; non-trivial = distinct (file, entry)"
+	c.Res.Rule = "gofmt-canonical files: hand corpus, /repo's own sources, files sampled from $GOROOT/src (any size up to 60 kB), each through the entry points (string helpers; explicit Decorator/Restorer on caller file sets that already hold files; one FileRestorer reused for two files, printed afterwards; ParseDir); a generated family of comments hanging at a continuation / clause-body indent at package level and in function bodies, plain and behind line directives; plus the recorded finding inputs; non-trivial = distinct (file, entry)"
 	var srcs []string
 	srcs = append(srcs, sinkSources...)
 	srcs = append(srcs, linkExtra...)
@@ -336,6 +418,27 @@ func c01Prop(c *Ctx) {
 		}
 	}
 	c.Res.Notes = append(c.Res.Notes, fmt.Sprintf("%d of %d candidate files are gofmt-canonical", canonical, len(srcs)))
+	// the hanging-comment layouts: every canonical one through the string helpers and through one
+	// further entry point (which one rotates with the run's seed)
+	layouts, layoutsCanonical := c01HangingLayouts(), 0
+	lrng := rand.New(rand.NewSource(c.Seed))
+	off := lrng.Intn(len(entries) - 1)
+	for i, src := range layouts {
+		if !isCanonical(src) {
+			continue
+		}
+		layoutsCanonical++
+		for _, e := range []string{"parse-print", entries[1+(i+off)%(len(entries)-1)]} {
+			in := c01Input{Src: src, Entry: e}
+			c.Res.Evaluations++
+			c.Res.seen(fmt.Sprint("layout", e, src))
+			c.Res.hist("c01-entry", e)
+			if key, what := c01Check(c, in); key != "" {
+				c.Res.fail(key, what, in)
+			}
+		}
+	}
+	c.Res.Notes = append(c.Res.Notes, fmt.Sprintf("%d of %d hanging-comment layouts are gofmt-canonical", layoutsCanonical, len(layouts)))
 	for _, in := range c01Regress {
 		c.Res.Evaluations++
 		c.Res.hist("c01-entry", in.Entry)
